@@ -336,6 +336,12 @@ BP_MODES = ("l2bp3d", "l2bp", "su", "superorthogonal")
 def condition_for(mode, lat):
     if mode in BP_MODES and (lat.get("cx") or lat.get("cy")):
         lat["kind"] = "gauss"
+    if mode in BP_MODES + ("projector",) and lat.get("layers", 1) == 2 and lat.get("phys") == 1:
+        # a bra/ket pair joined by size-1 physical indices is a product of two independent networks: merged boundary
+        # bonds are then *exactly* rank deficient (singular values 0.0, not 1e-17), and the simple-update gauging these
+        # modes do with their default smudge=0.0 divides by them (inf -> LinAlgError 'Array must not contain infs or
+        # NaNs').  `smudge` is the documented remedy; the degenerate product structure is kept out of these modes.
+        lat["phys"] = 2
     return lat
 SEEDED = {"src", "src-first", "src-oversample", "srcmps", "srcmps-first", "srcmps-oversample", "fit", "fit-zipup",
           "fit-projector", "fit-oversample"}
@@ -798,8 +804,8 @@ def s_around(draw, tier):
     modes = MODE_POOL if entry == "boundary" else CTMRG_MODES
     mode = draw(st.sampled_from(modes))
     heavy = mode in HEAVY
-    lat = draw(s_lattice2d(tier, max_chi=(64 if heavy else 256) if tier == "quick" else (256 if heavy else 729), min_L=3,
-                           allow_cyclic=False))
+    lat = condition_for(mode, draw(s_lattice2d(tier, max_chi=(64 if heavy else 256) if tier == "quick" else (256 if heavy else 729),
+                                               min_L=3, allow_cyclic=False)))
     k = draw(st.integers(1, 2))
     around = [[draw(st.integers(0, lat["Lx"] - 1)), draw(st.integers(0, lat["Ly"] - 1))] for _ in range(k)]
     o = {}
@@ -1319,7 +1325,7 @@ def s_ctmrg2d(draw, tier):
     # 'projector' mode (its default) takes all of them (others raise TypeError, or absorb them in **kwargs until a
     # truncation hands them to the SVD)
     mode = draw(st.sampled_from(CTMRG_MODES))
-    lat = draw(s_lattice2d(tier, max_chi=256 if tier == "quick" else 729))
+    lat = condition_for(mode, draw(s_lattice2d(tier, max_chi=256 if tier == "quick" else 729)))
     o = {}
     if draw(st.integers(0, 2)) == 0:
         o["canonize"] = True
